@@ -332,6 +332,56 @@ func c16Classes(p *core.Program, r *core.Report) {
 	} else {
 		r.OK("R16.2", "checker.(visitor).IdentifierNode/accepts only classes the fetch instruction resolves", p.Pos(idfd.Pos()), "every class of the table is resolved by fetch")
 	}
+	// priority: where a name is both a method and a field / map entry, the table's entry is the
+	// METHOD (the method loop runs after the fields were stored and overwrites them), so the call
+	// resolver must try the method first
+	if cfd := p.FuncDecl("conf", "", "CreateTypesTable"); cfd != nil {
+		cinfo := p.Pkg("conf").TypesInfo
+		var fieldsPos, methodPos token.Pos
+		ast.Inspect(cfd.Body, func(n ast.Node) bool {
+			switch x := n.(type) {
+			case *ast.CallExpr:
+				if fn := eng.CalleeOf(cinfo, x); fn != nil && fn.Name() == "FieldsFromStruct" && !fieldsPos.IsValid() {
+					fieldsPos = x.Pos()
+				}
+			case *ast.CompositeLit:
+				if t := cinfo.TypeOf(x); t != nil && strings.HasSuffix(t.String(), "conf.Tag") && !methodPos.IsValid() {
+					for _, el := range x.Elts {
+						if kv, ok := el.(*ast.KeyValueExpr); ok && eng.ExprStr(kv.Key) == "Method" {
+							methodPos = x.Pos()
+						}
+					}
+				}
+			}
+			return true
+		})
+		staticMethodWins := fieldsPos.IsValid() && methodPos.IsValid() && methodPos > fieldsPos
+		_, ffd := resolverClasses(p, "FetchFn")
+		var mPos, otherPos token.Pos
+		ast.Inspect(ffd.Body, func(n ast.Node) bool {
+			if c, ok := n.(*ast.CallExpr); ok {
+				if sel, ok := c.Fun.(*ast.SelectorExpr); ok {
+					switch sel.Sel.Name {
+					case "MethodByName":
+						if !mPos.IsValid() {
+							mPos = c.Pos()
+						}
+					case "FieldByName", "MapIndex":
+						if !otherPos.IsValid() {
+							otherPos = c.Pos()
+						}
+					}
+				}
+			}
+			return true
+		})
+		if staticMethodWins {
+			r.Check(mPos.IsValid() && otherPos.IsValid() && mPos < otherPos, "R16.2", "vm.FetchFn/a method wins over a field or map entry of the same name, as in the types table", p.Pos(ffd.Pos()), "MethodByName is consulted first",
+				"the types table resolves a name that is both a method and a func-valued field or map entry to the METHOD (and the checker types the call with the method's signature), but the call resolver looks the field / map entry up first: the call runs another function than the one that was type-checked")
+		} else {
+			r.Unk("R16.2", "conf.CreateTypesTable/priority between methods and fields", p.Pos(cfd.Pos()), "cannot establish which class wins in the types table (expected: fields stored first, methods stored after and overwriting)")
+		}
+	}
 	// function-call rule: table classes ⊆ FetchFn classes
 	var missing []string
 	for c := range table {
@@ -641,6 +691,7 @@ func c16Controls() []core.Mutant {
 		{Name: "table publishes unexported fields again", File: "conf/types_table.go", Old: "\t\t\tif f.PkgPath == \"\" { // exported\n\t\t\t\ttypes[f.Name] = Tag{Type: f.Type}\n\t\t\t}", New: "\t\t\ttypes[f.Name] = Tag{Type: f.Type}", Rule: "R16.1", Construct: "conf.FieldsFromStruct"},
 		{Name: "property lookup accepts unexported fields", File: "checker/types.go", Old: "\t\t\t\tif f.Name == name && f.PkgPath == \"\" {\n\t\t\t\t\treturn f.Type, true", New: "\t\t\t\tif f.Name == name {\n\t\t\t\t\treturn f.Type, true", Rule: "R16.1", Construct: "checker.fieldType"},
 		{Name: "method name accepted as a bare identifier", File: "checker/checker.go", Old: "\t\tif t.Method {\n\t\t\t// The VM fetches fields and map entries only; a method can only be called.\n\t\t\treturn v.error(node, \"method %v used as a value, not called\", node.Value)\n\t\t}\n", New: "", Rule: "R16.2", Construct: "IdentifierNode"},
+		{Name: "call resolver tries the field before the method", File: "vm/runtime.go", Old: "\t// Methods can be defined on any type.\n\tif v.NumMethod() > 0 {\n\t\tmethod := v.MethodByName(name)\n\t\tif method.IsValid() {\n\t\t\treturn method\n\t\t}\n\t}\n\n\td := v", New: "\td := v", Edits: [][2]string{{"\tpanic(fmt.Sprintf(`cannot get \"%v\" from %T`, name, from))", "\tif v.NumMethod() > 0 {\n\t\tmethod := v.MethodByName(name)\n\t\tif method.IsValid() {\n\t\t\treturn method\n\t\t}\n\t}\n\tpanic(fmt.Sprintf(`cannot get \"%v\" from %T`, name, from))"}}, Rule: "R16.2", Construct: "a method wins"},
 		{Name: "documentation enumerates fields itself", File: "docgen/docgen.go", Old: "\tfor name, t := range conf.CreateTypesTable(i) {", New: "\tfor name, t := range conf.FieldsFromStruct(reflect.TypeOf(i)) {", Rule: "R16.3", Construct: "docgen.CreateDoc"},
 		{Name: "ambiguous names documented", File: "docgen/docgen.go", Old: "\t\tif t.Ambiguous {\n\t\t\tcontinue\n\t\t}\n", New: "", Rule: "R16.3", Construct: "documented names"},
 		{Name: "methods gathered through the pointer type", File: "conf/types_table.go", Old: "\tcase reflect.Struct:\n\t\ttypes = FieldsFromStruct(d)\n", New: "\tcase reflect.Struct:\n\t\ttypes = FieldsFromStruct(d)\n\t\tt = reflect.PtrTo(d)\n", Rule: "R16.4", Construct: "method enumeration"},
